@@ -16,7 +16,7 @@ def dkey(op, c):
 
 
 ENGINE = DiffEngine("x86dump", include_c=("topology-x86",), stateful=False, classify=classify, distinct_key=dkey,
-                    sizes={"quick": (6, 1500), "thorough": (32, 12000)},
+                    sizes={"quick": (6, 1500), "thorough": (16, 6000)},
                     rule="per case (a) one pu0 dump file (valid lines in several spacings / 0x prefixes, comments, token mutants with signs, "
                          "0x without digits, > 32-bit and > 64-bit numbers, broken `=>`, byte mutations, truncation, lines and comments beyond the "
                          "128-byte fgets buffer, NUL bytes, raw bytes, empty and missing files) read by the real cpuiddump_read, its table "
